@@ -26,10 +26,15 @@ pub fn run(args: &Args) -> Report {
 pub mod svs;
 
 #[cfg(feature = "net")]
+#[path = "c09_proxy.rs"]
+pub mod proxy;
+
+#[cfg(feature = "net")]
 pub use imp::run;
 
 #[cfg(feature = "net")]
 mod imp {
+    use super::proxy::{self, Sniff};
     use super::svs::{self, NextOut, RawSvs, RawTransport, TcpRaw, WsRaw};
     use crate::common::*;
     use repe::value_stream::{
@@ -413,7 +418,9 @@ mod imp {
         depth: usize,
         zstd: bool,
         /// 0 = the boundary grid; 1 = the gated-producer family of the stage (raw: concurrent `next`
-        /// on one stream id; pullers: a foreign cancel in the middle of a pull)
+        /// on one stream id; pullers: a foreign cancel in the middle of a pull); 2 = the bystander
+        /// family (stale `next` / `cancel` for a released stream id while other connections' streams
+        /// are live); 3 = the slow-producer family (pullers: a producer that goes quiet mid-stream)
         fam: u8,
     }
     impl Cfg {
@@ -421,7 +428,7 @@ mod imp {
             StreamOpts { chunk_bytes: self.chunk, compression: if self.zstd { Compression::Zstd } else { Compression::None }, zstd_level: 3, session_depth: self.depth }
         }
         fn json(&self) -> Value {
-            json!({"transport": format!("{:?}", self.tr), "kind": self.kind.name(), "chunk_bytes": self.chunk, "session_depth": self.depth, "zstd": self.zstd, "family": if self.fam == 0 { "grid" } else { "gated" }})
+            json!({"transport": format!("{:?}", self.tr), "kind": self.kind.name(), "chunk_bytes": self.chunk, "session_depth": self.depth, "zstd": self.zstd, "family": match self.fam { 0 => "grid", 1 => "gated", 2 => "bystander", _ => "slow-producer" }})
         }
     }
 
@@ -473,6 +480,10 @@ mod imp {
         parked: bool,
         open: bool,
         timed_out: bool,
+        /// the harness stopped caring (the pull this gate belongs to has returned)
+        abandoned: bool,
+        parked_at: Option<Instant>,
+        opened_at: Option<Instant>,
     }
     /// A one-shot gate: the producer parks on it (and thereby tells the harness it was asked for the
     /// bytes behind the gate); the harness opens it.
@@ -482,23 +493,39 @@ mod imp {
         cv: Condvar,
     }
     impl Gate {
-        fn park(&self) {
+        fn park(&self, max: Duration) {
             let mut g = self.st.lock().unwrap_or_else(|e| e.into_inner());
             g.parked = true;
+            g.parked_at = Some(Instant::now());
             self.cv.notify_all();
-            let (mut g, _) = self.cv.wait_timeout_while(g, GATE_PARK_MAX, |s| !s.open).unwrap_or_else(|e| e.into_inner());
+            let (mut g, _) = self.cv.wait_timeout_while(g, max, |s| !s.open).unwrap_or_else(|e| e.into_inner());
             if !g.open {
                 g.timed_out = true;
             }
         }
         fn wait_parked(&self, d: Duration) -> bool {
             let g = self.st.lock().unwrap_or_else(|e| e.into_inner());
-            let (g, _) = self.cv.wait_timeout_while(g, d, |s| !s.parked).unwrap_or_else(|e| e.into_inner());
+            let (g, _) = self.cv.wait_timeout_while(g, d, |s| !s.parked && !s.abandoned).unwrap_or_else(|e| e.into_inner());
             g.parked
         }
-        fn open(&self) {
-            self.st.lock().unwrap_or_else(|e| e.into_inner()).open = true;
+        /// Wake a `wait_parked`: the pull returned, the producer will not park any more (or nobody waits for it).
+        fn abandon(&self) {
+            self.st.lock().unwrap_or_else(|e| e.into_inner()).abandoned = true;
             self.cv.notify_all();
+        }
+        fn open(&self) {
+            let mut g = self.st.lock().unwrap_or_else(|e| e.into_inner());
+            g.open = true;
+            if g.opened_at.is_none() {
+                g.opened_at = Some(Instant::now());
+            }
+            drop(g);
+            self.cv.notify_all();
+        }
+        /// (when the producer parked, when the harness opened the gate)
+        fn times(&self) -> (Option<Instant>, Option<Instant>) {
+            let g = self.st.lock().unwrap_or_else(|e| e.into_inner());
+            (g.parked_at, g.opened_at)
         }
         fn timed_out(&self) -> bool {
             self.st.lock().unwrap_or_else(|e| e.into_inner()).timed_out
@@ -512,6 +539,8 @@ mod imp {
         park_at: Option<usize>,
         fail: bool,
         panic: bool,
+        /// upper bound on the time this producer stays parked
+        park_max: Duration,
         gate: Gate,
     }
 
@@ -523,8 +552,11 @@ mod imp {
     }
     impl GateTable {
         fn add(&self, data: Vec<u8>, park_at: Option<usize>, fail: bool, panic: bool) -> (String, u64, Arc<GSrc>) {
+            self.add_with_park_max(data, park_at, fail, panic, GATE_PARK_MAX)
+        }
+        fn add_with_park_max(&self, data: Vec<u8>, park_at: Option<usize>, fail: bool, panic: bool, park_max: Duration) -> (String, u64, Arc<GSrc>) {
             let id = self.next.fetch_add(1, Ordering::Relaxed) + 1;
-            let src = Arc::new(GSrc { data, park_at, fail, panic, gate: Gate::default() });
+            let src = Arc::new(GSrc { data, park_at, fail, panic, park_max, gate: Gate::default() });
             self.m.lock().unwrap().insert(id, src.clone());
             (format!("gate:{id}"), id, src)
         }
@@ -545,7 +577,7 @@ mod imp {
     impl Read for GRead {
         fn read(&mut self, out: &mut [u8]) -> io::Result<usize> {
             if !self.passed && self.src.park_at.map(|p| p.min(self.src.data.len())) == Some(self.pos) {
-                self.src.gate.park();
+                self.src.gate.park(self.src.park_max);
                 self.passed = true;
             }
             let len = self.src.data.len();
@@ -570,7 +602,7 @@ mod imp {
         let p = src.park_at.unwrap_or(len).min(len);
         w.write_all(&src.data[..p])?;
         if src.park_at.is_some() {
-            src.gate.park();
+            src.gate.park(src.park_max);
         }
         w.write_all(&src.data[p..])?;
         if src.fail {
@@ -1480,6 +1512,9 @@ mod imp {
         if cfg.fam == 1 {
             return conc_work(cfg, seed, rt, acc);
         }
+        if cfg.fam == 2 {
+            return bystander::raw_work(cfg, seed, thorough, rt, acc);
+        }
         let srv = match start_server(cfg, rt) {
             Ok(s) => s,
             Err(e) => {
@@ -1529,7 +1564,15 @@ mod imp {
              connection, seeded write order and pauses) before the gate is opened; the producer's gate closure reports that it was \
              asked for the bytes behind the gate; oracle over all responses of all connections: some order of the concurrent \
              responses must be a legal stream (exactly one end marker for a healthy producer, none for a failing one, every \
-             response after the end/failure is an error response, chunk bodies concatenate to the producer's bytes / a prefix)",
+             response after the end/failure is an error response, chunk bodies concatenate to the producer's bytes / a prefix). \
+             Bystander family (three raw connections to one producer, every producer kind, stream ids treated as opaque tokens): a \
+             connection pulls a stream to its end / cancels it / lets the producer fail / abandons it mid-way and cancels later; another \
+             connection opens a new stream afterwards and pulls a part; the first connection then sends stale next(id) / cancel(id) \
+             (request and notify form, also twice, interleaved with the other's nexts); also the mirror image (the later stream finishes \
+             first), three connections, many quick open/finish cycles, random scripts; one interpreter keeps a model (live / released how) \
+             and judges every response: a next for a released id is an error response (never data), a cancel for a released id disturbs \
+             nobody, two live streams never share an id, every live stream delivers exactly its producer's bytes and ends once; id reuse \
+             itself is only counted",
         );
         let mut cfgs = grid(args, true, |i, _| if args.thorough() { vec![Tr::Tcp, Tr::Ws] } else if i % 3 == 0 { vec![Tr::Tcp, Tr::Ws] } else { vec![Tr::Tcp] });
         let mut rng = Rng::new(args.seed ^ 0x0C09_5AFE);
@@ -1541,8 +1584,13 @@ mod imp {
         rng.shuffle(&mut fam);
         let nf = args.budget(fam.len() as u64, fam.len() as u64) as usize;
         fam.truncate(nf.min(fam.len()).max(1));
-        fam.extend(cfgs);
-        let cfgs = fam;
+        let mut by = bystander::raw_cfgs(args);
+        rng.shuffle(&mut by);
+        let nb = args.budget(by.len() as u64, by.len() as u64) as usize;
+        by.truncate(nb.min(by.len()).max(1));
+        by.extend(fam);
+        by.extend(cfgs);
+        let cfgs = by;
         quiet_panics(true);
         run_pool(&mut rep, args, cfgs, raw_work);
         quiet_panics(false);
@@ -1795,8 +1843,16 @@ mod imp {
                 (Pk::Consume, true) => "pull_consume_async",
                 (Pk::ToFile, false) => "pull_to_file",
                 (Pk::ToFile, true) => "pull_to_file_async",
-                (Pk::Decode, false) => if kind == Kind::Value { "pull_value" } else { "pull_typed_slice" },
-                (Pk::Decode, true) => if kind == Kind::Value { "pull_value_async" } else { "pull_typed_slice_async" },
+                (Pk::Decode, false) => match kind {
+                    Kind::Value => "pull_value",
+                    Kind::Complex(_) => "pull_complex_slice",
+                    _ => "pull_typed_slice",
+                },
+                (Pk::Decode, true) => match kind {
+                    Kind::Value => "pull_value_async",
+                    Kind::Complex(_) => "pull_complex_slice_async",
+                    _ => "pull_typed_slice_async",
+                },
             }
         }
     }
@@ -1854,6 +1910,7 @@ mod imp {
         let data = match cfg.kind {
             Kind::Reader | Kind::Writer => svs::payload(spec.seed, want_len, false),
             Kind::Typed(e) => logical_bytes(cfg.kind, &Spec { p: want_len / elem_size(e) + 1, ..spec }),
+            Kind::Complex(e) => logical_bytes(cfg.kind, &Spec { p: want_len / (if e == Elem::F64 { 16 } else { 8 }) + 1, ..spec }),
             k => logical_bytes(k, &Spec { p: want_len, ..spec }),
         };
         let park_at = if cfg.zstd { 140_000 + rng.usize_below(2000) } else { sent * c + rng.usize_below(c) };
@@ -1863,14 +1920,16 @@ mod imp {
     struct CancelCtx<'a> {
         cfg: &'a Cfg,
         table: &'a GateTable,
-        tiny: &'a str,
+        /// what the sniffing proxy between the puller and the server saw
+        sniff: &'a Sniff,
         dir: &'a std::path::Path,
     }
 
     /// One scenario: `run` executes a library puller on this thread against a gated producer while a
-    /// helper thread, once the producer is parked, learns the stream id from a second connection
-    /// (ids are allocated sequentially per registered producer: an `open` before and one after bracket
-    /// it), cancels it with a request-form cancel (acknowledged), and only then opens the gate.
+    /// helper thread, once the producer is parked, takes the stream id from the `/_svs/open` response
+    /// the sniffing proxy saw on the puller's own connection (stream ids are opaque: nothing is
+    /// assumed about how the server allocates them), cancels it from a second connection with a
+    /// request-form cancel (acknowledged), and only then opens the gate.
     fn cancel_scenario<T: RawTransport + Send>(
         cx: &CancelCtx<'_>,
         raw: &mut RawSvs<T>,
@@ -1897,40 +1956,32 @@ mod imp {
         }
         let before = svs::snapshot(cx.dir);
         let replay = |extra: Value| json!({"cfg": cfg.json(), "client": cname, "puller": puller, "logical_len": full_len, "park_at": park_at, "chunks_sent_before_gate": sent, "destination_preexisting": preexisting, "observed": extra});
-        let a = match raw.open(cx.tiny)? {
-            Ok(o) => o.stream_id,
-            Err((ec, m)) => return Err(format!("bracketing open refused: ec={ec} {m}")),
-        };
-        raw.cancel(a, false)?;
+        let opens0 = cx.sniff.opens_seen();
         let fetched0 = FETCHED.with(|c| c.get());
-        let tiny = cx.tiny;
+        let sniff = cx.sniff;
         let (result, helper) = std::thread::scope(|s| {
             let src2 = src.clone();
-            let h = s.spawn(move || -> Result<(bool, u64, Vec<u64>), String> {
+            let h = s.spawn(move || -> Result<(bool, Vec<u64>, Vec<u64>), String> {
                 let parked = src2.gate.wait_parked(Duration::from_secs(15));
-                let r = (|| -> Result<(u64, Vec<u64>), String> {
-                    let b = match raw.open(tiny)? {
-                        Ok(o) => o.stream_id,
-                        Err((ec, m)) => return Err(format!("bracketing open refused: ec={ec} {m}")),
-                    };
+                let r = (|| -> Result<(Vec<u64>, Vec<u64>), String> {
+                    // the producer is parked, so the puller's open was answered: its response went through the proxy
+                    let seen = sniff.opens_since(opens0);
                     let mut cancelled = vec![];
-                    if b > a && b - a <= 64 {
-                        for id in a + 1..b {
-                            let ec = raw.cancel(id, false)?;
-                            if ec != 0 {
-                                return Err(format!("request-form cancel of stream {id} answered ec={ec}"));
-                            }
-                            cancelled.push(id);
+                    if parked && seen.len() == 1 {
+                        let ec = raw.cancel(seen[0], false)?;
+                        if ec != 0 {
+                            return Err(format!("request-form cancel of stream {} answered ec={ec}", seen[0]));
                         }
+                        cancelled.push(seen[0]);
                     }
-                    raw.cancel(b, false)?;
-                    Ok((b, cancelled))
+                    Ok((seen, cancelled))
                 })();
                 // the cancel was acknowledged (or the helper failed): release the producer either way
                 src2.gate.open();
-                r.map(|(b, c)| (parked, b, c))
+                r.map(|(seen, c)| (parked, seen, c))
             });
             let result = run(&res, &dest);
+            src.gate.abandon();
             (result, h.join())
         });
         cx.table.remove(gid);
@@ -1939,22 +1990,31 @@ mod imp {
         if preexisting || after.contains_key(&format!("dest-{gid}.bin")) {
             let _ = std::fs::remove_file(&dest);
         }
-        let (parked, b, cancelled) = match helper {
+        let (parked, seen, cancelled) = match helper {
             Ok(Ok(x)) => x,
             Ok(Err(e)) => return Err(format!("cancelling helper: {e}")),
             Err(_) => return Err("cancelling helper panicked".into()),
         };
         if !parked || src.gate.timed_out() {
-            acc.inconclusive.push(format!("{puller} over {cname}: the gated producer never reached its gate (result {:?})", result.as_ref().map_err(|e| trunc(e, 80))));
+            match &result {
+                // nothing was cancelled, the producer is healthy and had not even reached its gate: the pull failed on its own
+                Err(e) if !parked && cancelled.is_empty() && !e.starts_with("harness:") => {
+                    acc.evals += 1;
+                    acc.violation(
+                        format!("C09:puller-error-on-healthy-stream:{puller}:{class}"),
+                        format!("{puller} over {cname} failed on a healthy {full_len}-byte stream after {fetched} chunks, before the producer reached byte {park_at} and before the harness cancelled anything: {e}"),
+                        replay(json!({"result": format!("Err({})", trunc(e, 100)), "chunks_fetched": fetched})),
+                    );
+                }
+                _ => acc.inconclusive.push(format!("{puller} over {cname}: the gated producer never reached its gate (result {:?})", result.as_ref().map_err(|e| trunc(e, 80)))),
+            }
             return Ok(());
         }
         if cancelled.is_empty() {
-            acc.inconclusive.push(format!("stream ids are not bracketed by two opens on the same producer (before {a}, after {b}): cannot address the puller's stream"));
+            acc.inconclusive.push(format!("the proxy on the puller's connection saw {} open responses ({seen:?}) while the producer was parked instead of exactly one: cannot address the puller's stream", seen.len()));
             return Ok(());
         }
-        if cancelled.len() == 1 {
-            acc.count("foreign_cancel_stream_id_bracketed_exactly", 1);
-        }
+        acc.count("foreign_cancel_stream_id_observed_in_open_response", 1);
         acc.evals += 1;
         acc.count("foreign_cancel_scenarios", 1);
         acc.count("chunks_fetched_by_pullers_before_the_error", fetched);
@@ -2013,9 +2073,15 @@ mod imp {
 
     fn cancel_config<T: RawTransport + Send>(cfg: &Cfg, raw: &mut RawSvs<T>, table: &GateTable, addr: SocketAddr, seed: u64, rt: &Arc<tokio::runtime::Runtime>, acc: &mut Acc) -> Result<(), String> {
         let mut rng = Rng::new(seed ^ 0xCA9C_E1);
-        let (tiny, _, _) = table.add(vec![7u8; 3], None, false, false);
         let dir = svs::fresh_dir("c09-cancel");
-        let cx = CancelCtx { cfg, table, tiny: &tiny, dir: &dir };
+        // the pullers reach the server through a sniffing proxy (the raw second connection goes direct)
+        let sniff = Sniff::new();
+        let (tcp_px, ws_px) = match cfg.tr {
+            Tr::Tcp => (Some(proxy::tcp_proxy(addr, sniff.clone())?), None),
+            Tr::Ws => (None, Some(proxy::ws_proxy(rt, format!("ws://{addr}/repe"), sniff.clone())?)),
+        };
+        let addr = tcp_px.as_ref().map(|p| p.addr).or(ws_px.as_ref().map(|p| p.addr)).unwrap();
+        let cx = CancelCtx { cfg, table, sniff: &sniff, dir: &dir };
         let mut pks = vec![Pk::ToVec, Pk::Consume, Pk::ToFile];
         if cfg.kind.beve() {
             pks.push(Pk::Decode);
@@ -2051,6 +2117,10 @@ mod imp {
         })();
         judge_twins(cfg, &twins, acc);
         let _ = std::fs::remove_dir_all(&dir);
+        acc.count("frames_forwarded_by_sniffing_proxies", sniff.frames_forwarded.load(Ordering::Relaxed));
+        if sniff.unparsed.load(Ordering::Relaxed) > 0 {
+            acc.count("proxy_frames_not_parsed", sniff.unparsed.load(Ordering::Relaxed));
+        }
         r
     }
 
@@ -2101,6 +2171,9 @@ mod imp {
     fn pullers_work(cfg: &Cfg, seed: u64, thorough: bool, rt: &Arc<tokio::runtime::Runtime>, acc: &mut Acc) {
         if cfg.fam == 1 {
             return cancel_work(cfg, seed, rt, acc);
+        }
+        if cfg.fam == 2 {
+            return bystander::puller_work(cfg, seed, rt, acc);
         }
         let srv = match start_server(cfg, rt) {
             Ok(s) => s,
@@ -2167,9 +2240,19 @@ mod imp {
              writer error/panic, serializer error) must give Err from every puller; distinct = (config, client, puller, flags, length class). \
              Gated family (foreign cancel): each puller (pull_to_vec, pull_consume, pull_to_file, pull_value / pull_typed_slice and their \
              async forms over AsyncClient and WebSocketClient) pulls from a producer parked on a harness gate after >= depth+2 chunks; a \
-             second raw connection brackets the puller's stream id with two opens (ids are sequential per producer), sends a \
-             request-form /_svs/cancel for it, and only after the ack the gate is opened (more than one chunk still follows); oracle: \
-             every puller returns Err, the destination directory is unchanged, sync and async twins agree",
+             sniffing proxy on the puller's own connection reads the stream id from the /_svs/open response (ids are opaque), a second \
+             raw connection sends a request-form /_svs/cancel for it, and only after the ack the gate is opened (more than one chunk \
+             still follows); oracle: every puller returns Err, the destination directory is unchanged, sync and async twins agree. \
+             Bystander family (one producer, raw connections plus a library puller behind a sniffing proxy): (a) the puller is stopped \
+             in its svs.chunk_fetched probe after its LAST chunk, a raw connection opens a new stream and pulls a part, the puller \
+             returns (its trailing cancel is stale traffic), the raw stream must still deliver exactly its bytes; (b) the puller is \
+             stopped between two fetches while raw connections send next/cancel for ids of streams they finished / cancelled / whose \
+             producer failed: every stale next is an error response and the puller returns exactly its producer's bytes. \
+             Slow-producer family (own threads, overlapping the pool): a gated producer goes quiet mid-stream for 12 s (thorough: also \
+             35 s and 65 s; plus a short stall first on the same connection) and then finishes; pulled with pull_to_vec, pull_consume, \
+             pull_to_file, pull_value, pull_typed_slice, pull_complex_slice and their async forms over Client, AsyncClient and \
+             WebSocketClient; oracle: Ok carries exactly the producer's bytes (a failure is tolerated and counted, Ok with other bytes or \
+             a published file with other bytes never)",
         );
         let mut cfgs = grid(args, false, |i, _| if args.thorough() { vec![Tr::Tcp, Tr::Ws] } else if i % 3 == 0 { vec![Tr::Ws] } else { vec![Tr::Tcp] });
         let mut rng = Rng::new(args.seed ^ 0x0C09_9011);
@@ -2181,15 +2264,24 @@ mod imp {
         rng.shuffle(&mut fam);
         let nf = args.budget(fam.len() as u64, fam.len() as u64) as usize;
         fam.truncate(nf.min(fam.len()).max(1));
-        fam.extend(cfgs);
-        let cfgs = fam;
+        let mut by = bystander::puller_cfgs(args);
+        rng.shuffle(&mut by);
+        let nb = args.budget(by.len() as u64, by.len() as u64) as usize;
+        by.truncate(nb.min(by.len()).max(1));
+        by.extend(fam);
+        by.extend(cfgs);
+        let cfgs = by;
         repe::verif_hooks::set_probe(Some(Arc::new(|point: &'static str, _id: u64| {
             if point == "svs.chunk_fetched" {
                 FETCHED.with(|c| c.set(c.get() + 1));
+                bystander::on_chunk_fetched();
             }
         })));
         quiet_panics(true);
+        // the slow-producer family sleeps through its stalls on its own threads while the pool works
+        let slow_family = slow::spawn(args);
         run_pool(&mut rep, args, cfgs, pullers_work);
+        slow::join(slow_family, &mut rep);
         quiet_panics(false);
         repe::verif_hooks::set_probe(None);
         if rep.get_count("pulls_matching") == 0 && rep.inconclusive.is_empty() {
@@ -2197,4 +2289,7 @@ mod imp {
         }
         rep
     }
+
+    include!("c09_bystander.rs");
+    include!("c09_slow.rs");
 }
